@@ -126,8 +126,47 @@ Theorem C17_judge_trunc_sound : forall o tab runs out,
     match fst r with
     | Ok o' => (Z.of_N (snd r) <= fst run)%Z /\ consistent o o' /\
                ((Z.of_N (size_tab tab o) <= fst run)%Z -> o' = o) /\ (o' = o \/ t_commits o' <> [])
-    | Err => (fst run < Z.of_N (size_tab tab o))%Z
+    | Err => let tr := trace (size_tab tab) (fst run) (pick_of (snd run)) (S (measure o)) 0 o in
+             Forall (fun x => (fst run < Z.of_N (size_tab tab x))%Z) tr /\
+             exists pre x, tr = pre ++ [x] /\ t_commits (cut_next (pick_of (snd run)) (length pre) x) = []
     | _ => False
     end.
 Proof. exact (fun o tab runs => trunc_sound (o, tab, runs)). Qed.
 Print Assumptions C17_judge_trunc_sound.
+
+(* the Err clause by itself, premise-free: an ARBITRARY answer "error" that passes satisfies the conclusion of
+   C17_error_only_if_nothing_fits (size = the case's table of real encoded sizes, pick = the case's witness path) *)
+Theorem C17_judge_trunc_err_nothing_fits : forall o tab max picks n,
+  trunc_ok1 o tab max picks (Err, n) = true ->
+  Forall (fun x => (max < Z.of_N (size_tab tab x))%Z) (trace (size_tab tab) max (pick_of picks) (S (measure o)) 0 o).
+Proof. exact trunc_ok1_err_sound. Qed.
+Print Assumptions C17_judge_trunc_err_nothing_fits.
+
+(* "not even one report fits": with unique chain keys, among the measured observations there is one that holds at most
+   one commit report (the last one measured), and it exceeds the limit *)
+Theorem C17_judge_trunc_err_single_report : forall o tab max picks n,
+  NoDup (tkeys (t_commits o)) -> trunc_ok1 o tab max picks (Err, n) = true ->
+  exists x, In x (trace (size_tab tab) max (pick_of picks) (S (measure o)) 0 o) /\
+            (max < Z.of_N (size_tab tab x))%Z /\
+            (t_commits x = [] \/ exists c l, t_commits x = [(c, l)] /\ (length l <= 1)%nat).
+Proof. exact trunc_ok1_err_single_report. Qed.
+Print Assumptions C17_judge_trunc_err_single_report.
+
+(* hypotheses satisfiable: a genuine error after three measured observations *)
+Theorem C17_judge_trunc_err_example :
+  let o := mkTObs [(1%N, [mkTC 1 5 6; mkTC 2 7 8]); (2%N, [mkTC 3 1 2])] [(1, 7, 100)%N] [(1%N, 7%N)] [100%N] [] in
+  let tab := [([(1%N, 2%nat); (2%N, 1%nat)], 120%N); ([(1%N, 1%nat); (2%N, 1%nat)], 70%N); ([(2%N, 1%nat)], 30%N)] in
+  NoDup (tkeys (t_commits o)) /\ trunc_ok1 o tab 10 [1%N; 1%N; 2%N] (Err, 0%N) = true /\
+  length (trace (size_tab tab) 10 (pick_of [1%N; 1%N; 2%N]) (S (measure o)) 0 o) = 3%nat.
+Proof. exact trunc_ok1_err_example. Qed.
+Print Assumptions C17_judge_trunc_err_example.
+
+(* the executable property before the strengthening judged "error" against the ORIGINAL's size only: an error on an
+   input whose single-report observation fits (40 <= 50) was accepted; it is rejected now, the model's own answer passes *)
+Theorem C17_judge_trunc_before_weak :
+  trunc_ok_before weak_trunc_in [(Err, 0%N)] = true /\
+  trunc_ok weak_trunc_in [(Err, 0%N)] = false /\
+  trunc_model weak_trunc_in = [(Ok (mkTObs [(1%N, [mkTC 1 5 6])] [] [] [] []), 40%N)] /\
+  trunc_ok weak_trunc_in (trunc_model weak_trunc_in) = true.
+Proof. exact trunc_ok_before_weak. Qed.
+Print Assumptions C17_judge_trunc_before_weak.
